@@ -1,7 +1,7 @@
 (* Proofs for C05: the datagram path is a map over datagrams; the derived one-shot interface accepts exactly one frame. *)
 From Coq Require Import List Arith Bool Lia.
 From Coq Require Import NArith ZArith.
-From EN Require Import Lib.Bytes Frame.Framer Frame.ReadUntil Frame.OneShot Frame.LineOneShot IO.DgramEndpoint Proofs.Bytes_proofs Proofs.ReadUntil_proofs.
+From EN Require Import Lib.Bytes Frame.Framer Frame.ReadUntil Frame.OneShot Frame.LineOneShot Frame.StructStrOneShot IO.DgramEndpoint Proofs.Bytes_proofs Proofs.ReadUntil_proofs.
 Import ListNotations.
 
 Section DG.
@@ -115,6 +115,14 @@ Section DG.
       + (* failed send *)
         destruct (IH t) as (k & Hk & Hf & Hi). simpl in *.
         destruct (ops t os) as [t2 r2] eqn:E. simpl in *. exists k. auto.
+  Qed.
+
+  Lemma packet_or_parse_error d :
+    (forall x, deserialize x <> OCrash) ->
+    (exists q, ires (IData d) = RPacket q) \/ (exists e, ires (IData d) = RParseError e).
+  Proof.
+    intros H. simpl. unfold build_packet_from_datagram. specialize (H (trunc bufsize d)).
+    destruct (deserialize (trunc bufsize d)); [destruct (from_dto p)| |]; eauto. congruence.
   Qed.
 
   Lemma not_truncated d : (N.of_nat (length d) <= bufsize)%N -> ires (IData d) = build d.
@@ -293,3 +301,34 @@ Section OneShotExact.
     unfold rx_check. destruct (Nat.ltb_spec (length x) size); [reflexivity|lia].
   Qed.
 End OneShotExact.
+
+
+(* ---------------------------------------------------------------- struct "<n>s" field codec *)
+Lemma rstrip_nul_zeros k : rstrip_nul (repeat 0%N k) = [].
+Proof. induction k; simpl; [reflexivity|]. rewrite IHk. reflexivity. Qed.
+
+Lemma rstrip_nul_app_zeros v k : rstrip_nul (v ++ repeat 0%N k) = rstrip_nul v.
+Proof.
+  induction v as [|b r IH]; simpl; [apply rstrip_nul_zeros|]. rewrite IH. reflexivity.
+Qed.
+
+Lemma struct_s_roundtrip n v :
+  length v <= n -> rstrip_nul v = v ->
+  struct_s_deserialize n true (struct_s_serialize n v) = OOk v.
+Proof.
+  intros Hl Hv. unfold struct_s_deserialize, struct_s_serialize.
+  rewrite firstn_all2 by exact Hl.
+  rewrite app_length, repeat_length. replace (length v + (n - length v)) with n by lia.
+  rewrite Nat.eqb_refl, rstrip_nul_app_zeros, Hv. reflexivity.
+Qed.
+
+(* only trailing NULs are removed: the result is a prefix of the field followed by NULs only; interior NULs survive *)
+Lemma rstrip_nul_spec d : exists k, d = rstrip_nul d ++ repeat 0%N k.
+Proof.
+  induction d as [|b r [k IH]]; simpl; [exists 0; reflexivity|].
+  destruct (rstrip_nul r) as [|x r'] eqn:E.
+  - destruct (N.eqb_spec b 0).
+    + subst b. exists (S k). simpl. rewrite IH at 1. reflexivity.
+    + exists k. simpl. rewrite IH at 1. reflexivity.
+  - exists k. simpl. rewrite IH at 1. reflexivity.
+Qed.
